@@ -28,6 +28,27 @@ def _f(x):
     return float.hex(x)
 
 
+def obj_state(x):
+    """attribute dict of an object, whether it stores them in __dict__ or in __slots__"""
+    d = {}
+    try:
+        d.update(vars(x))
+    except TypeError:
+        pass
+    for klass in type(x).__mro__:
+        slots = klass.__dict__.get('__slots__', ())
+        if isinstance(slots, str):
+            slots = (slots,)
+        for name in slots:
+            if name in ('__dict__', '__weakref__') or name in d:
+                continue
+            try:
+                d[name] = getattr(x, name)
+            except AttributeError:
+                pass
+    return d
+
+
 class Canon(object):
     def __init__(self, names=None, repo_prefix=None):
         self.names = names or {}          # id(obj) -> name
@@ -101,10 +122,7 @@ class Canon(object):
                 out.append(int.__int__(x))
             elif isinstance(x, str):
                 out.append(str.__str__(x))
-            try:
-                d = vars(x)
-            except TypeError:
-                d = {}
+            d = obj_state(x)
             out.append(['d'] + [[k, self.canon(d[k], depth + 1)] for k in sorted(d)])
             return out
         if isinstance(x, float):
